@@ -228,8 +228,7 @@ func dumpElems(es []*gpmf.Element) string {
 }
 
 func gmRead(data []byte) string {
-	type result struct{ out string }
-	ch := make(chan result, 1)
+	ch := make(chan string, 1)
 	go func() {
 		var es []*gpmf.Element
 		cls, _ := classify(func() error {
@@ -243,20 +242,15 @@ func gmRead(data []byte) string {
 			var out string
 			c2, _ := classify(func() error { out = dumpElems(es); return nil })
 			if c2 != "ok" {
-				ch <- result{"panic"}
+				ch <- "panic"
 				return
 			}
-			ch <- result{out}
+			ch <- out
 			return
 		}
-		ch <- result{cls}
+		ch <- cls
 	}()
-	select {
-	case r := <-ch:
-		return r.out
-	case <-time.After(10 * time.Second):
-		return "hang"
-	}
+	return waitOrRunaway(ch, 10*time.Second)
 }
 
 // gmWalk reads data, numbers the elements in document order with the harness's own recursion,
